@@ -1,8 +1,8 @@
 // package-dir: internal/http3
 //
 // Stand-alone reproduction (plain Go tests, no vx) for the C35 finding
-// "trailer HEADERS frame whose QPACK integer runs past the frame limit =>
-// nil-pointer panic when the body / request is finished".
+// "HEADERS frame whose field section runs past the frame limit (over-read) =>
+// nil-pointer panic in the server's stream goroutine / in Response.Body.Close".
 //
 // Overlay into /repo/internal/http3 (package http3), e.g.
 //
@@ -11,22 +11,36 @@
 //
 // Mechanism (unchanged tree): stream.recordBytesRead, on a read that goes past
 // the end of the current frame, sets st.stream = nil ("panic if we try to read
-// again") and returns an H3_FRAME_ERROR connection error. When that happens in
-// the message head the caller aborts the connection and never touches the
-// stream again. When it happens in bodyReader.Read (trailer section), the error
-// is merely handed to the application as the result of Body.Read, the
-// connection is NOT aborted, and the code that runs when the application is
-// done with the message dereferences the nil *quic.Stream:
+// again") and returns an H3_FRAME_ERROR *connectionError. That is only safe if
+// every caller reacts by aborting the connection without touching the stream
+// again. For HEADERS frames it does not hold: the QPACK layer (readPrefixedInt,
+// readPrefixedIntWithByte, ...) replaces the error by the bare http3Error
+// errQPACKDecompressionFailed, which is neither a *connectionError nor a
+// *streamError, and
 //
-//	server: handler returns -> responseWriter.close -> Flush -> stream.writeVarint
-//	        -> (*quic.Stream)(nil).WriteByte      (on the server's per-stream goroutine:
-//	        nobody recovers it, the whole process dies; with a handler that never
-//	        touched the body the same sequence is harmless)
-//	client: Response.Body.Close -> rt.st.stream.Reset -> nil dereference on the
-//	        caller's goroutine.
+//	server, message head: serverConn.parseHeader returns it,
+//	        genericConn.handleStreamError takes its default branch and calls
+//	        st.stream.CloseRead() on the nil *quic.Stream;
+//	server, trailers: bodyReader.Read hands it to the handler as the Body.Read
+//	        error; when the handler returns, responseWriter.close -> Flush ->
+//	        stream.writeVarint -> (*quic.Stream)(nil).WriteByte panics, and the
+//	        deferred req.Body.Close() panics again in (*quic.Stream)(nil).CloseRead;
+//	client, trailers: Body.Read returns it; Response.Body.Close (which the
+//	        application must call) -> rt.st.stream.Reset -> nil dereference on the
+//	        caller's goroutine;
+//	client, message head: safe by accident - clientConn.handleHeaders calls
+//	        st.endFrame() afterwards, which turns lim == -1 into a
+//	        *connectionError, and roundTripState.abort then only aborts the conn.
 //
-// A peer therefore crashes a Go HTTP/3 server whose handler reads the request
-// body with 2 + 13 + 5 bytes on a request stream.
+// The two server panics happen on the goroutine genericConn.acceptStreams
+// starts for the request stream; nothing recovers there, so the process dies:
+// any peer can kill a server with the 2-byte request stream "01 00" (an empty
+// HEADERS frame), no handler involved.
+//
+// Candidate fix: findings/C35_overread_panic_fix.diff (recordBytesRead closes the
+// read side of the QUIC stream instead of dropping the pointer: later reads still
+// fail, closing / resetting the stream still works). With it the tests below
+// pass, the package's tests pass and ./check C35 quick is quiet.
 package http3
 
 import (
@@ -133,8 +147,8 @@ func TestC35OverreadRequestHeadServerPanics(t *testing.T) {
 	}
 }
 
-// Client, message head: RoundTrip's deferred rt.abort takes its default branch
-// for the same reason and dereferences the nil stream on the caller's goroutine.
+// Client, message head: no panic on the unchanged tree (see above); kept as a
+// guard for a fix that removes the endFrame call or changes its order.
 func TestC35OverreadResponseHeadClientPanics(t *testing.T) {
 	synctest.Test(t, func(t *testing.T) {
 		tc := newTestClientConn(t)
